@@ -116,6 +116,7 @@ func ruleOfRendering(a, b string) string {
 
 func checkC10(o options) int {
 	wall := o.wall
+	defer func(d time.Duration) { procBackstop = d }(procBackstop)
 	canonProcs, canonSessions, pristProcs, pristReps, isoCap := 4, 400, 4, 3, 3000
 	if o.tier == "thorough" {
 		canonProcs, canonSessions, pristProcs, pristReps, isoCap = 16, 3000, 16, 5, 20000
@@ -125,6 +126,9 @@ func checkC10(o options) int {
 	} else if wall == 0 {
 		wall = 20 * time.Second
 	}
+	// every child is bounded: the exploration budget plus a generous allowance
+	// for minimisation and the fresh-process phases
+	procBackstop = wall + 20*time.Minute
 	known := loadKnown("C10")
 	builds := prepareAll(prepOpts{instrumented: true, name: "inst"}, prepOpts{instrumented: false, name: "prist"})
 	inst, prist := builds[0], builds[1]
